@@ -27,7 +27,7 @@ fn registered_at(r: &ExecResult, op: &'static str, id: u32, built_in: bool) -> O
     rets(r, op).find(|c| c.a as u32 == id).map(|c| c.i)
 }
 
-pub fn check(r: &ExecResult, reducers: u32, mws: u32, subs: &[u32], added: (Option<u32>, Option<u32>, Option<u32>)) -> Vec<Finding> {
+pub fn check(r: &ExecResult, reducers: u32, mws: u32, subs: &[u32], added: &(Vec<u32>, Vec<u32>, Vec<u32>)) -> Vec<Finding> {
     let mut f = sanity(r);
     let evs: Vec<CbEv> = cbs(r).filter(|c| phase(c.kind).is_some()).collect();
     // one reducer context
@@ -51,18 +51,41 @@ pub fn check(r: &ExecResult, reducers: u32, mws: u32, subs: &[u32], added: (Opti
             f.push(fnd("ctx-interleaved", format!("callbacks of action {} are split by callbacks of another action", a)));
         }
         seen.push(a);
-        // phase order and registration order within a phase
-        let mut last = (0u32, 0u32);
-        for (n, c) in b.iter().enumerate() {
-            let key = (phase(c.kind).unwrap(), c.comp);
-            if n > 0 && key <= last {
-                f.push(fnd(
-                    "ctx-phase-order",
-                    format!("action {}: {}#{} ran after {}#{}", a, c.kind, c.comp, b[n - 1].kind, b[n - 1].comp),
-                ));
-                break;
+        // phase order, and registration order within a phase: a component whose registration
+        // had returned before another one's was invoked runs first (build-time components are
+        // ordered by their position); overlapping registrations may land either way
+        let reg = |c: &CbEv| -> (usize, usize, bool) {
+            let (op, n_built): (&'static str, u32) = match c.kind {
+                "reduce" => ("add_reducer", reducers),
+                "notify" => ("add_subscriber", 0),
+                _ => ("add_middleware", mws),
+            };
+            if c.comp < n_built {
+                return (0, 0, true);
             }
-            last = key;
+            let call = calls(r, op).find(|x| x.a as u32 == c.comp).map(|x| x.i).unwrap_or(0);
+            let ret = rets(r, op).find(|x| x.a as u32 == c.comp).map(|x| x.i).unwrap_or(usize::MAX);
+            (call, ret, false)
+        };
+        'outer: for j in 0..b.len() {
+            for i in 0..j {
+                let (pi, pj) = (phase(b[i].kind).unwrap(), phase(b[j].kind).unwrap());
+                let bad = if pi != pj {
+                    pj < pi
+                } else if b[i].comp == b[j].comp {
+                    true
+                } else {
+                    let (ri, rj) = (reg(b[i]), reg(b[j]));
+                    if ri.2 && rj.2 { b[j].comp < b[i].comp } else { rj.1 < ri.0 }
+                };
+                if bad {
+                    f.push(fnd(
+                        "ctx-phase-order",
+                        format!("action {}: {}#{} ran after {}#{}", a, b[j].kind, b[j].comp, b[i].kind, b[i].comp),
+                    ));
+                    break 'outer;
+                }
+            }
         }
         // completeness
         let call = calls(r, "dispatch").find(|c| c.a as u32 == a).map(|c| c.i).unwrap_or(usize::MAX);
@@ -71,7 +94,7 @@ pub fn check(r: &ExecResult, reducers: u32, mws: u32, subs: &[u32], added: (Opti
         // every reducer of the chain answered Dispatch
         let notifies = b.iter().any(|c| c.kind == "reduce") && b.iter().filter(|c| c.kind == "reduce").all(|c| c.x == 0);
         let mut red: Vec<(u32, bool)> = (0..reducers).map(|i| (i, true)).collect();
-        if let Some(x) = added.0 {
+        for &x in &added.0 {
             red.push((x, false));
         }
         for (id, built_in) in red {
@@ -82,7 +105,7 @@ pub fn check(r: &ExecResult, reducers: u32, mws: u32, subs: &[u32], added: (Opti
             }
         }
         let mut mw: Vec<(u32, bool)> = (0..mws).map(|i| (i, true)).collect();
-        if let Some(x) = added.1 {
+        for &x in &added.1 {
             mw.push((x, false));
         }
         for (id, built_in) in mw {
@@ -100,7 +123,7 @@ pub fn check(r: &ExecResult, reducers: u32, mws: u32, subs: &[u32], added: (Opti
             }
         }
         let mut sb: Vec<(u32, bool)> = subs.iter().map(|i| (*i, false)).collect();
-        if let Some(x) = added.2 {
+        for &x in &added.2 {
             sb.push((x, false));
         }
         let block_end = b.last().map(|c| c.i).unwrap_or(0);
@@ -123,7 +146,9 @@ pub fn check(r: &ExecResult, reducers: u32, mws: u32, subs: &[u32], added: (Opti
 
 pub fn scenarios(tier: Tier) -> Vec<Scenario> {
     let mut v = vec![];
-    // registrar: 0 none, 1 add_reducer, 2 add_middleware, 3 add_subscriber; then its own dispatch
+    // registrar: 0 none, 1 add_reducer, 2 add_middleware, 3 add_subscriber; then its own dispatch;
+    // 4 swap (see below); 5/6/7: TWO registrar threads adding a reducer / middleware / subscriber
+    // each at the same time, then their own dispatch
     let mut add = |np: u32, k: u32, registrar: u8, keep_second: bool, bound: u32| {
         let mut spec = StoreSpec::new(2, 2, Pol::Block);
         spec.mws = 2;
@@ -134,24 +159,42 @@ pub fn scenarios(tier: Tier) -> Vec<Scenario> {
                 .collect();
             prog = prog.thread(&format!("p{}", p), ops);
         }
-        let mut added = (None, None, None);
+        let mut added: (Vec<u32>, Vec<u32>, Vec<u32>) = (vec![], vec![], vec![]);
         let reg_op = match registrar {
-            1 => {
-                added.0 = Some(2);
+            1 | 5 => {
+                added.0.push(2);
                 Some(Op::AddReducer(2))
             }
-            2 => {
-                added.1 = Some(2);
+            2 | 6 => {
+                added.1.push(2);
                 Some(Op::AddMiddleware(2))
             }
-            3 | 4 => {
-                added.2 = Some(3);
+            3 | 4 | 7 => {
+                added.2.push(3);
                 Some(Op::AddSub { id: 3, gated: false, reads: false })
             }
             _ => None,
         };
         if let Some(op) = reg_op {
             prog = prog.thread("registrar", vec![op, Op::Dispatch(Act::new(900))]);
+        }
+        let second = match registrar {
+            5 => {
+                added.0.push(3);
+                Some(Op::AddReducer(3))
+            }
+            6 => {
+                added.1.push(3);
+                Some(Op::AddMiddleware(3))
+            }
+            7 => {
+                added.2.push(4);
+                Some(Op::AddSub { id: 4, gated: false, reads: false })
+            }
+            _ => None,
+        };
+        if let Some(op) = second {
+            prog = prog.thread("registrar2", vec![op, Op::Dispatch(Act::new(901))]);
         }
         let mut main = vec![Op::AddSub { id: 1, gated: false, reads: false }, Op::AddSub { id: 2, gated: false, reads: false }];
         if registrar == 4 {
@@ -164,8 +207,8 @@ pub fn scenarios(tier: Tier) -> Vec<Scenario> {
         prog = prog.main(main);
         // run-time registration touches the reducer / middleware lists from a second task:
         // no lock elision in those scenarios
-        let o = if registrar == 1 || registrar == 2 { verif_rt::RunOpts::default() } else { opts_elide() };
-        v.push(scn(format!("C07/P{}k{}reg{}{}", np, k, registrar, if keep_second { "K" } else { "" }), prog, bound, o, move |r, _| check(r, 2, 2, &[1, 2], added)));
+        let o = if matches!(registrar, 1 | 2 | 5 | 6) { verif_rt::RunOpts::default() } else { opts_elide() };
+        v.push(scn(format!("C07/P{}k{}reg{}{}", np, k, registrar, if keep_second { "K" } else { "" }), prog, bound, o, move |r, _| check(r, 2, 2, &[1, 2], &added)));
     };
     match tier {
         Tier::Quick => {
@@ -174,6 +217,9 @@ pub fn scenarios(tier: Tier) -> Vec<Scenario> {
             add(1, 1, 2, false, 2);
             add(1, 2, 3, true, 2);
             add(0, 0, 4, false, 2);
+            add(0, 0, 5, false, 2);
+            add(0, 0, 6, false, 2);
+            add(0, 0, 7, false, 2);
         }
         Tier::Thorough => {
             for reg in 0..=3u8 {
@@ -189,6 +235,10 @@ pub fn scenarios(tier: Tier) -> Vec<Scenario> {
             add(1, 2, 0, true, 3);
             add(0, 0, 4, false, 3);
             add(1, 1, 4, false, 2);
+            for reg in 5..=7u8 {
+                add(0, 0, reg, false, 3);
+                add(1, 1, reg, false, 2);
+            }
         }
     }
     v
